@@ -81,8 +81,10 @@ class SList(Sym):
     symbolic index (memoised on the syntactic index term), or None when the list is over
     a z3 sequence ``seq``.
     ``uid``: name used for measures.
+    ``parts``: None for a base sequence, or -- for a concatenation -- the list of its pieces
+    ``('elem', value)`` / ``('base', SList)`` in order (structural normal form, used by str.join).
     """
-    __slots__ = ('length', 'elem', 'uid', 'cache', 'seq', 'immutable', 'key', 'volatile')
+    __slots__ = ('length', 'elem', 'uid', 'cache', 'seq', 'immutable', 'key', 'volatile', 'parts', 'elem_ty')
 
     def __init__(self, length, elem, uid, seq=None):
         self.length = length
@@ -93,6 +95,8 @@ class SList(Sym):
         self.immutable = True
         self.key = None          # (function-name base, index tuple) for lists that are elements/attributes of indexed values
         self.volatile = False    # True: the element function may case-split, elements are not memoised here
+        self.elem_ty = None        # shape of the elements, when created from a ListOf shape
+        self.parts = None
 
     def __repr__(self):
         return 'SList(%s, len=%s)' % (self.uid, self.length)
